@@ -93,6 +93,9 @@ def _gen_derive(rng: random.Random, m: _Model, *, domain: tuple[str, int], poly:
         vs = sorted(rng.sample(sc, ksz))
         if domain[0] == "discrete":
             obs = {str(v): rng.randrange(domain[1]) for v in vs}
+        elif rng.random() < 0.1:
+            # integer-valued observations of real variables, some beyond what a float can hold
+            obs = {str(v): rng.choice([2, -3, 16777217, -16777219, 2**53 + 1]) for v in vs}
         else:
             obs = {str(v): round(rng.uniform(-1.0, 1.0), 3) for v in vs}
         spec = {"opr": opr, "src": [src], "obs": obs, "via": "symbolic"}
